@@ -33,6 +33,9 @@ ASSUMPTIONS = ["memory model covers only statements whose byte meaning is unambi
 TARGETS = {
     "z80": dict(hdr=0x51, gran=1, byte="db", word=("dw", 2, "le"), res="ds", dup="%d dup (%s)", limit=0xFFFF, segs=["code"]),
     "6502": dict(hdr=0x11, gran=1, byte="byt", word=("adr", 2, "le"), res="dfs", dup=None, limit=0xFFFF, segs=["code"]),
+    # the Motorola 8-bit pseudo-ops serve both byte orders: one decoder shared by the 65xx and the 68xx families
+    "6809": dict(hdr=0x63, gran=1, byte="fcb", word=("fdb", 2, "be"), res="rmb", dup=None, limit=0xFFFF, segs=["code"]),
+    "6811": dict(hdr=0x61, gran=1, byte="byt", word=("adr", 2, "be"), res="dfs", dup=None, limit=0xFFFF, segs=["code"]),
     "8051": dict(hdr=0x31, gran=1, byte="db", word=("dw", 2, "le"), res="ds", dup="%d dup (%s)", limit=0xFFFF,
                  segs=["code", "xdata", "idata", "data"]),
     "68000": dict(hdr=0x01, gran=1, byte="dc.b", word=("dc.w", 2, "be"), long=("dc.l", 4, "be"), res="ds.b", dup="[%d]%s",
